@@ -19,25 +19,27 @@ abbrev Table := Nat → Nat → Rat
 abbrev ERat := Option Rat
 
 /-- `f` evaluated once on `0 … n-1` -/
-def tab {α} (n : Nat) (f : Nat → α) : Array α := Array.ofFn (n := n) (fun i => f i.val)
+@[noinline] def tab {α} (n : Nat) (f : Nat → α) : Array α := Array.ofFn (n := n) (fun i => f i.val)
+
+/-- a function in a box, so that the compiler cannot eta-expand across the stored array -/
+structure Fn (α : Type) where
+  f : Nat → α
 
 /-- answer from the stored array where it has an entry, else from `f` itself -/
-def look {α} (a : Array α) (f : Nat → α) (i : Nat) : α := if h : i < a.size then a[i] else f i
-
-/-- `memo n f = f` (`memo_eq`); it only keeps the compiled driver from re-evaluating nested
-closures (the array is built when `memo n f` is formed, because `look` is partially applied). -/
-@[inline] def memo {α} (n : Nat) (f : Nat → α) : Nat → α := look (tab n f) f
+@[noinline] def look {α} (a : Array α) (f : Nat → α) : Fn α :=
+  ⟨fun i => if h : i < a.size then a[i] else f i⟩
 
 theorem look_eq {α} (a : Array α) (f : Nat → α) (h : ∀ i (h : i < a.size), a[i] = f i) :
-    look a f = f := by
+    (look a f).f = f := by
   funext i
   unfold look
   by_cases hi : i < a.size
-  · rw [dif_pos hi]; exact h i hi
-  · rw [dif_neg hi]
+  · simp only [dif_pos hi]; exact h i hi
+  · simp only [dif_neg hi]
 
-theorem memo_eq {α} (n : Nat) (f : Nat → α) : memo n f = f := by
-  unfold memo
+/-- `(look (tab n f) f).f` is `f`; the detour only keeps the compiled driver from re-evaluating
+nested closures (the array is built once, when the expression is formed). -/
+theorem look_tab {α} (n : Nat) (f : Nat → α) : (look (tab n f) f).f = f := by
   apply look_eq
   intro i h
   simp [tab]
@@ -120,8 +122,10 @@ def nearestGo (D : Table) (n : Nat) : List Nat → Nat → (Nat → ERat) → (N
   | [], _, d, a => (d, a)
   | c :: cs, i, d, a =>
     nearestGo D n cs (i+1)
-      (memo n fun f => let o := d f; let x := some (D f c); if ltE x o then x else o)
-      (memo n fun f => if ltE (some (D f c)) (d f) then (i : Int) else a f)
+      (let g := fun f => (let o := d f; let x := some (D f c); if ltE x o then x else o)
+       (look (tab n g) g).f)
+      (let g := fun f => if ltE (some (D f c)) (d f) then (i : Int) else a f
+       (look (tab n g) g).f)
 
 /-- util.py `assign_to_nearest_center` (L186-205): labels start at 0, distances at `inf` -/
 def assignToNearest (D : Table) (n : Nat) (cs : List Nat) : (Nat → ERat) × (Nat → Int) :=
@@ -144,9 +148,12 @@ def initState (D : Table) (n : Nat) : Option (List Nat) → St
 
 /-- kcenters.py L304-308 and L224: `inds = dist < distances`, write-back, the two appends -/
 def update (n : Nat) (s : St) (cand : Nat → ERat) (c : Nat) : St :=
-  { dist := memo n fun f => let o := s.dist f; let x := cand f; if ltE x o then x else o
-    assign := memo n fun f =>
-      if ltE (cand f) (s.dist f) then (s.ctrInds.length : Int) else s.assign f
+  { dist :=
+      let g := fun f => (let o := s.dist f; let x := cand f; if ltE x o then x else o)
+      (look (tab n g) g).f
+    assign :=
+      let g := fun f => if ltE (cand f) (s.dist f) then (s.ctrInds.length : Int) else s.assign f
+      (look (tab n g) g).f
     ctrInds := s.ctrInds ++ [c]
     centers := s.centers ++ [c] }
 
